@@ -242,6 +242,11 @@ def check(rep, prog, keys):
             off = 0
             if idx['k'] == 'Bin' and idx['op'] == '-' and astu.num_value(astu.strip_casts(idx['b'])) == 1:
                 idx, off = astu.strip_casts(idx['a']), -1
+            if idx['k'] == 'Ref' and idx.get('dk') == 'param':
+                # the bound is the caller's obligation: not decidable inside this function
+                rep.cannot_decide('VECTOR.index', w, '%s is subscripted by the parameter %s of %s; the bound must come from the call sites, '
+                                  'which this intraprocedural rule does not follow' % (text, idx['name'], fn['name']))
+                continue
             if idx['k'] != 'Ref' or idx.get('dk') != 'local':
                 rep.add('VECTOR.index', keyname, w, 'index %s is not a local with a recognised provenance' % astu.src(idx), False)
                 continue
@@ -324,6 +329,12 @@ def _justify(fn, L, pm, site, cont, idx, off, possets, shrink):
         elif d['k'] == 'Call' and d['callee'].get('project') and _PROG[0] is not None:
             cb = _returns_last_index(_PROG[0], d)
             if cb is None:
+                cb = _returns_found_index(_PROG[0], d)
+                if cb is not None:
+                    kinds.update(('found', 'sentinel'))
+                    bound_c = cb
+                    continue
+            if cb is None:
                 return False, 'index %s is defined by %s(), which does not return -1 or `size() - 1` of a container passed to it' % (name, d['callee']['qn'].split('::')[-1])
             kinds.update(('last', 'sentinel'))
             bound_c = cb
@@ -398,6 +409,48 @@ def _returns_last_index(prog, call):
     idx = [i for i, p_ in enumerate(f['params']) if p_['name'] == owner]
     arg = astu.strip_casts(call['args'][idx[0]])
     return {'k': 'MCall', 'callee': {'qn': 'bxdecay0::event::get_particles'}, 'obj': arg, 'args': []}
+
+
+def _returns_found_index(prog, call):
+    """the callee returns only -1 or the counter of `for (i = 0; i < V.size(); i++)` over one of its container parameters V (a search
+    result): -> the caller's argument bound to V, else None"""
+    fs = [f for f in prog.fns(call['callee']['qn']) if len(f['params']) == len(call['args'])]
+    if len(fs) != 1:
+        return None
+    f = fs[0]
+    Lc = Locals(f)
+    pmc = parent_map(f['body'])
+    owner = None
+    nret = 0
+    for n in astu.walk(f['body']):
+        if n['k'] != 'Return' or n.get('e') is None:
+            continue
+        nret += 1
+        e = astu.strip_casts(n['e'])
+        cands = [(e, n)]
+        if e['k'] == 'Ref' and e.get('dk') == 'local' and _counter_loop(pmc, n, e, Lc) is None:
+            v = Lc.decl.get(e['id'])
+            if v is None or any(a['op'] != '=' for a in Lc.assigns.get(e['id'], [])):
+                return None
+            cands = ([(v['init'], n)] if 'init' in v else []) + [(a['b'], a) for a in Lc.assigns.get(e['id'], [])]
+        for c, at in cands:
+            c = astu.strip_casts(c)
+            if astu.num_value(c) == -1:
+                continue
+            if c['k'] == 'Ref' and c.get('dk') == 'local':
+                b = _counter_loop(pmc, at, c, Lc)
+                if b is not None:
+                    b = astu.strip_casts(b)
+                    if b['k'] == 'Ref' and b.get('dk') == 'param':
+                        if owner not in (None, b['name']):
+                            return None
+                        owner = b['name']
+                        continue
+            return None
+    if owner is None or nret == 0:
+        return None
+    idx = [i for i, p_ in enumerate(f['params']) if p_['name'] == owner]
+    return call['args'][idx[0]]
 
 
 def _captured_bound(fn, L, ref):
